@@ -474,6 +474,15 @@ package cl
 //@   on-call Call#3 asks-whether-the-second-precedes: len($arg1) == 2 && $arg1[0] == k2 && $arg1[1] == k1
 //@   on-call sortLess asks-whether-the-second-precedes: $arg0 == k2 && $arg1 == k1
 
+// bounding indices of fill / replace: start and end may be equal to the length
+// (an empty window at the end); only indices beyond it, or end < start, are errors.
+//@ func cl.checkStartEnd
+//@   property C14
+//@   on-call ErrorPanic#1 start-really-beyond-the-size: start > size
+//@   on-call ErrorPanic#2 end-really-beyond-the-size: end > size
+//@   on-call ErrorPanic#3 end-before-start: end < start
+//@   ensures window: start <= result0 && result0 <= size
+
 // assoc / rassoc / member / adjoin: the two-argument test receives the item
 // first and the (keyed) element second.
 //@ func cl.(*Assoc).Call
